@@ -537,7 +537,23 @@ struct app {
         else if (op == "bretransmit") { int cc = pick_conn(s); if (cc >= 0) br.retransmit(cc); }
         else if (op == "bdisc") { int cc = pick_conn(s); if (cc >= 0) br.disconnect(cc, (int) jint(s, "rc", 0x8b), jprops(s)); else jev("diverged").str("step", op); }
         else if (op == "bclose") { int cc = pick_conn(s); if (cc >= 0) br.close(cc); else jev("diverged").str("step", op); }
-        else if (op == "bbytes") { int cc = pick_conn(s); if (cc >= 0) br.raw(cc, s.contains("hex") ? unhex(jstrk(s, "hex")) : jstrk(s, "data")); else jev("diverged").str("step", op); }
+        else if (op == "bbytes") {
+            int cc = pick_conn(s);
+            std::string bytes;
+            if (s.contains("pub_total")) {
+                // a QoS 0 PUBLISH whose encoded size, fixed header included, is exactly pub_total bytes
+                long long total = jint(s, "pub_total", 0); std::string topic = "in/big";
+                for (int vl = 1; vl <= 4 && bytes.empty(); ++vl) {
+                    long long rl = total - 1 - vl; if (rl < (long long) topic.size() + 3) continue;
+                    std::string v; long long x = rl; do { unsigned char b = x & 0x7f; x >>= 7; if (x) b |= 0x80; v.push_back((char) b); } while (x);
+                    if ((int) v.size() != vl) continue;
+                    bytes.push_back((char) 0x30); bytes += v; bytes.push_back(0); bytes.push_back((char) topic.size()); bytes += topic; bytes.push_back(0);
+                    std::string pay = "big|"; pay.resize((size_t) (rl - topic.size() - 3), 'z'); bytes += pay;
+                }
+            }
+            else bytes = s.contains("hex") ? unhex(jstrk(s, "hex")) : jstrk(s, "data");
+            if (cc >= 0 && !bytes.empty()) br.raw(cc, bytes); else jev("diverged").str("step", op);
+        }
         else if (op == "fault") { // transport fault on the current connection
             int cc = pick_conn(s);
             std::string on = jstrk(s, "on", "both");
